@@ -1,10 +1,9 @@
-(* C01 -- machine-checked witness of the recorded finding biot-savart/Polyline:outside:edge-extension
-   on the binary64 instance of the model (the instance that is compared with numpy on every run).
-   Segment (0,0,0)-(1,2,3), current 1, observer 100.3*(1,2,3) as numpy computes it: the observer
-   lies on the extension of the segment up to one rounding (3*100.3), the Biot-Savart field there
-   is below 1e-20, the field 0.1 % off the line is 5e-10; the model, like the implementation,
-   misses the on-line mask and returns |Hx| > 5e-4.  (That the first-principles value is tiny is
-   NOT formalised here: over the reals the same model returns the exact integral, see CoreIntegrals.) *)
+(* C01 -- the former finding biot-savart/Polyline:outside:edge-extension (fixed in /repo by ed8562c)
+   replayed on the binary64 instance of the model (the instance that is compared with numpy on every
+   run).  Segment (0,0,0)-(1,2,3), current 1, observer 100.3*(1,2,3) as numpy computes it: the
+   observer lies on the extension of the segment up to one rounding (3*100.3); the Biot-Savart field
+   there is below 1e-20.  With the old |sinTh1 - sinTh2| branches the model (like the implementation)
+   returned |Hx| > 5e-4; with the cancellation-free deltaSin_beyond it returns |Hx| < 2^-60. *)
 From Coq Require Import ZArith List Bool.
 From Coq Require Import Floats.PrimFloat.
 From MV Require Import Model.CoreNum Model.CoreModel Model.CoreExec.
@@ -14,11 +13,11 @@ Definition ext_obs : FV3 := (0x1.9133333333333p+6, 0x1.9133333333333p+7, 0x1.2ce
 Definition ext_p1 : FV3 := (0, 0, 0)%float.
 Definition ext_p2 : FV3 := (1, 2, 3)%float.
 
-Definition polyline_ext_witness : bool :=
+Definition polyline_ext_regression : bool :=
   match run_polyline FH 1%float ext_obs ext_p1 ext_p2 1%float with
-  | [br; hx; _; _] => negb (PrimFloat.eqb br 1%float) && PrimFloat.ltb 0x1.0p-11%float (PrimFloat.abs hx)
+  | [br; hx; _; _] => negb (PrimFloat.eqb br 1%float) && PrimFloat.ltb (PrimFloat.abs hx) 0x1.0p-60%float
   | _ => false
   end.
 
-Lemma polyline_ext_witness_true : polyline_ext_witness = true.
+Lemma polyline_ext_regression_true : polyline_ext_regression = true.
 Proof. vm_compute. reflexivity. Qed.
